@@ -117,7 +117,7 @@ def validate_chunks(module, cfg, trace, nchunks, timeout=1200, xmx="3g", env=Non
 
 def replay_slice(ops, step):
     i = step - 1
-    while i > 0 and ops[i - 1].split()[0] in ("upd",):
+    while i > 0 and ops[i - 1].split()[0] in ("upd", "poke", "zeros"):
         i -= 1
     return ops[i:step]
 
@@ -222,6 +222,23 @@ def gen(ctx):
         ops += msg_ops(seed, n, sorted(set(rng.randint(0, n) for _ in range(12))))
         stats["long"] += 1
         place(ops, blocks(n))
+    # long messages (byte counts 2^29 .. 2^61): padding and 64-bit length field from an injected byte count (poke) or
+    # after really hashing <mib> MiB of zeros (zeros); see Sha256.tla HashFrom
+    def limbs(v):
+        return "%d %d %d %d" % ((v >> 48) & 0xffff, (v >> 32) & 0xffff, (v >> 16) & 0xffff, v & 0xffff)
+    counts = [64, 2 ** 16, 2 ** 29 - 64, 2 ** 29, 2 ** 29 + 64, 2 ** 32 - 64, 2 ** 32, 2 ** 35, 2 ** 45 - 64, 2 ** 48, 2 ** 56, 2 ** 61 - 128]
+    counts += [rng.getrandbits(rng.choice([30, 33, 40, 50, 60])) // 64 * 64 for _ in range(4 if quick else 40)]
+    ops = []
+    for c in counts:
+        for tl in ([0, 55, 64] if quick else [0, 1, 55, 56, 63, 64, 65, 119, 120, 200]):
+            ops += ["rst", "poke " + limbs(c)] + msg_ops(9000 + tl, tl, [tl // 2] if tl > 1 else [])
+            stats["long"] += 1
+    ops += ["rst", "zeros 3"] + msg_ops(9100, 70, [])
+    place(ops, 3 * len(counts) * (3 if quick else 10))
+    if not quick:
+        place(["rst", "zeros 512", "fin", "zeros 512"] + msg_ops(9101, 64, []), 4)
+        execs.append(["zeros 4096", "fin", "zeros 4097"] + msg_ops(9102, 1, []))       # crosses 2^32 bytes; own execution
+        stats["long"] += 4
     # HMAC
     klens = list(range(0, 81)) + list(range(120, 141)) if quick else list(range(0, 201))
     mcycle = [0, 1, 31, 55, 56, 63, 64, 65, 119, 120, 128, 200]
@@ -248,7 +265,8 @@ EXPLANATION = (
     "1-4,6,7 (Sha256Vectors). Sha256Stream.tla (count/buffer/chaining value, update/finalize/reset transcribed from the "
     "code, free compression function) is model-checked for block sizes 4 and 8 (thorough tier: more content and block size 16): buffered prefix invariant, digest = "
     "Blocks(Pad(message)) independent of chunking, reuse after finalize/reset. The driver runs the real Sha256 on "
-    "generator-defined messages (one hasher object per execution, reused across messages) and logs only lengths, "
+    "generator-defined messages (one hasher object per execution, reused across messages; byte counts of 2^29..2^61 by "
+    "injecting the counter, and by really hashing 512 MiB / 4 GiB in the thorough tier, continued from the logged chaining value) and logs only lengths, "
     "chunkings and digests; the trace specification makes TLC evaluate the reference digest once per distinct message "
     "and compare every logged digest. states = trace positions + model states; ASan/UBSan watch every call "
     "(inputs on exact-size heap blocks).")
